@@ -550,7 +550,7 @@ package main
 //@   loop 1 each element-relation {C01,C02,C03,C04,C05,C12,C14,C15,C19}: ElemRelA(c, redactFieldNames, isSearchStage, ite(len(keyPath) > 0, keyPath[len(keyPath)-1], parentKey), item, arr[_idx])
 //@   ensures key-path-frame: unchangedBelowExcept("Arr:Str", base(keyPath))
 //@   defines array-relation {C01,C02,C03,C04,C05,C12,C14,C15,C19}: RelA(c, redactFieldNames, isSearchStage, pk, arr) := true
-//@   at_call redactScalarValue scalars-are-matched-against-the-full-key-path {C14}: len(keyPath) == 0 || (arg_keyPath == keyPath && arg_isSelectivelyRedactable == isSelectivelyRedactable)
+//@   at_call redactScalarValue scalars-are-matched-against-the-full-key-path {C14,C05}: len(keyPath) == 0 || (arg_keyPath == keyPath && arg_isSelectivelyRedactable == isSelectivelyRedactable)
 
 //@ func redactArrayValues
 //@   safety C07
@@ -577,6 +577,7 @@ package main
 //@   ensures fresh-map: result > old(heapTop) && result <= heapTop && !isTable(result)
 //@   ensures key-path-frame: unchangedBelowExcept("Arr:Str", base(keyPath))
 //@   defines level-relation {C01,C02,C03,C04,C05,C12,C14,C15,C19}: RelQ(c, redactFieldNames, isSearchStage, obj, result) := QRel(c, redactFieldNames, isSearchStage, old(om(obj)), om(result))
+//@   at_call redactScalarValue the-leaf-is-classified-under-its-parent-and-grand-parent-key {C05,C01,C19}: len(arg_keyPath) >= 1 && arg_keyPath[len(arg_keyPath)-1] == k && implies(len(keyPath) > 0, len(arg_keyPath) >= 2 && arg_keyPath[len(arg_keyPath)-2] == keyPath[len(keyPath)-1])
 //@   at_call redactScalarValue the-key-path-carries-every-name-down-to-the-value {C14}: matchAny(redactedFieldsRegexp, selems(arg_keyPath), off(arg_keyPath), len(arg_keyPath)) == (matchAny(redactedFieldsRegexp, selems(keyPath), off(keyPath), len(keyPath)) || reMatch(redactedFieldsRegexp, k))
 //@   at_call redactQueryValues the-key-path-carries-every-name-down-to-the-value {C14}: matchAny(redactedFieldsRegexp, selems(arg_keyPath), off(arg_keyPath), len(arg_keyPath)) == (matchAny(redactedFieldsRegexp, selems(keyPath), off(keyPath), len(keyPath)) || reMatch(redactedFieldsRegexp, k))
 //@   at_call redactArrayValuesWithKey the-key-path-carries-every-name-down-to-the-value {C14}: matchAny(redactedFieldsRegexp, selems(arg_keyPath), off(arg_keyPath), len(arg_keyPath)) == (matchAny(redactedFieldsRegexp, selems(keyPath), off(keyPath), len(keyPath)) || reMatch(redactedFieldsRegexp, k))
@@ -630,6 +631,10 @@ package main
 //@   at_call (*orderedmap.OrderedMap).Set@newPipelineMap facet-entry-relation {C01,C02,C03,C04,C05,C12,C14,C15,C19}: key == subK && FacetEntryRel(subV, value)
 //@   ensures key-path-frame: unchangedBelowExcept("Arr:Str", base(keyPath))
 //@   at_call redactPipelineStage search-mode-is-decided-for-each-stage-on-its-own {C01,C02,C03,C04,C05,C12,C14,C15,C19}: implies(len(arg_keyPath) == 0, IsSearch(arg_stage, arg_inSearchStage))
+//@   at_call redactScalarValue@keyPath=newKeyPath the-leaf-is-classified-under-its-parent-and-grand-parent-key {C05,C01,C19}: len(arg_keyPath) >= 1 && arg_keyPath[len(arg_keyPath)-1] == k && implies(len(keyPath) > 0, len(arg_keyPath) >= 2 && arg_keyPath[len(arg_keyPath)-2] == keyPath[len(keyPath)-1])
+//@   at_call redactScalarValue#1 a-field-name-operand-that-is-no-string-is-classified-under-its-key {C05}: len(arg_keyPath) == 1 && arg_keyPath[0] == k && !isStr(arg_v)
+//@   at_call redactScalarValue#2 the-sub-leaf-is-classified-under-its-parent-key {C05,C01,C19}: len(arg_keyPath) >= 2 && arg_keyPath[len(arg_keyPath)-1] == subK
+//@   at_call redactScalarValue#3 the-sub-leaf-is-classified-under-its-parent-key {C05,C01,C19}: len(arg_keyPath) >= 2 && arg_keyPath[len(arg_keyPath)-1] == subK
 //@   ensures result-kind {C03}: (isMap(stage) && isMap(result) && mapOf(result) > old(heapTop) && mapOf(result) <= heapTop && !isTable(mapOf(result))) || (isArr(stage) && result == stage) || (!isMap(stage) && !isArr(stage) && result == stage)
 //@   defines stage-relation {C01,C02,C03,C04,C05,C12,C14,C15,C19}: RelS(c, redactFieldNames, inSearchStage, stage, result) := (isMap(stage) && isMap(result) && PRel(c, redactFieldNames, inSearchStage, A, om(mapOf(result)))) || (isArr(stage) && result == stage && RelA(c, redactFieldNames, inSearchStage, ite(len(keyPath) > 0, keyPath[len(keyPath)-1], ""), arrOf(stage))) || (!isMap(stage) && !isArr(stage) && result == stage)
 //@   loop 1 each exempt-parameters-are-kept-as-they-are {C04}: implies(opMeta == VOp(1) && !isArr(v), omIdx(om(newMap), redactedKey) >= 0 && omVal(om(newMap), omIdx(om(newMap), redactedKey)) == v)
